@@ -114,7 +114,7 @@ _p("C16", level="other",
    assumptions=K,
    explanation="every deciding obligation is a bounded stand-in: one complete Kani proof per vector length (all f32 bit patterns symbolic) for the stated list of lengths, and Euclidean lemmas on one packed block; the property quantifies over all lengths, which no loop-free harness covers",
    not_covered=["agreement with scalar formulas; symmetry; triangle inequality; cosine range and scale invariance"])
-_p("C19",
+_p("C19", probes_quick=["bbox_polygon_c19"],
    level_text=PROOF_TEXT + "Decides box equality (reflexive, symmetric, within-EPS equal, beyond-EPS unequal in every coordinate), angle normalisation range and fixed points, and the structural part of the ltwh <-> universal conversions for all finite inputs.",
    level_note="NOT covered: left/top/width after the round trip, area/radius formulas, polygon vertex arithmetic (sin/cos nondeterministic in CBMC; float formulas cannot be pinned without re-evaluating them).",
    technique="Kani proof harnesses (loop-free, full f32 domain) with concrete-playback replay",
